@@ -8,6 +8,8 @@ import (
 	"strconv"
 	"strings"
 	"sync"
+	"sync/atomic"
+	"time"
 
 	"github.com/dgraph-io/badger"
 	"github.com/jirenius/go-res/store"
@@ -36,9 +38,10 @@ type idxDom struct {
 	cbs     []string
 	qcbs    []string
 	watches []idxWatch
+	histDone map[string]bool
 }
 
-func init() { Register("idx", func() Domain { return &idxDom{} }) }
+func init() { Register("idx", func() Domain { return &idxDom{histDone: map[string]bool{}} }) }
 
 func (d *idxDom) Close() {
 	if d.db != nil {
@@ -162,6 +165,41 @@ func (d *idxDom) open(kind string) error {
 	return nil
 }
 
+// exclusion: a transaction of kind `held` is open on an id; does a transaction of kind
+// `cont` on the same (or another) id, started by another goroutine, get through before it closes?
+func (d *idxDom) exclusion(held, cont string, same bool) string {
+	open := func(kind, id string) interface{ Close() error } {
+		if kind == "W" {
+			return d.st.Write(id)
+		}
+		return d.st.Read(id)
+	}
+	id2 := "lock1"
+	if !same {
+		id2 = "lock2"
+	}
+	h := open(held, "lock1")
+	acquired := make(chan struct{})
+	go func() {
+		t := open(cont, id2)
+		close(acquired)
+		t.Close()
+	}()
+	blocked := false
+	select {
+	case <-acquired:
+	case <-time.After(40 * time.Millisecond):
+		blocked = true
+	}
+	h.Close()
+	select {
+	case <-acquired:
+	case <-time.After(3 * time.Second):
+		return "never-acquired"
+	}
+	return "blocked:" + wire.Bool(blocked)
+}
+
 func (d *idxDom) takeCbs() string {
 	d.mu.Lock()
 	defer d.mu.Unlock()
@@ -233,9 +271,27 @@ func (d *idxDom) Gen(r *gen.R, tier string, emit func(string)) {
 				emit(wire.Line(r.Pick([]string{"create", "update"}), id, r.Pick(keys), "g"))
 				emit(wire.Line("delete", id))
 				emit(wire.Line("veto", "off"))
-			case k == 15:
+			case k == 15 && r.Bool():
 				emit(wire.Line("createbad", id))
 				emit(wire.Line("create", "", "a", "g"))
+			case k == 15:
+				// several operations inside one write transaction
+				args := []string{"txn", id}
+				for n := 2 + r.Intn(5); n > 0; n-- {
+					switch r.Intn(7) {
+					case 0, 1:
+						args = append(args, "V")
+					case 2:
+						args = append(args, "E")
+					case 3:
+						args = append(args, "C:"+r.Pick(keys)+":"+r.Pick(idxGroups))
+					case 4, 5:
+						args = append(args, "U:"+r.Pick(keys)+":"+r.Pick(idxGroups))
+					default:
+						args = append(args, "D")
+					}
+				}
+				emit(wire.Line(args...))
 			case k == 16 && kind != "mock":
 				emit(wire.Line("init"))
 			case k == 17 && kind != "mock":
@@ -254,6 +310,9 @@ func (d *idxDom) Gen(r *gen.R, tier string, emit func(string)) {
 				}
 			}
 		}
+		if r.Chance(1, 6) {
+			emit(wire.Line("excl", r.Pick([]string{"R", "W"}), r.Pick([]string{"R", "W", "W"}), r.Pick([]string{"same", "same", "other"})))
+		}
 		if kind != "mock" {
 			emit(wire.Line("flush"))
 			for _, ix := range []string{"k", "kg", "e"} {
@@ -267,7 +326,124 @@ func (d *idxDom) Gen(r *gen.R, tier string, emit func(string)) {
 			emit(wire.Line("query", "k", "", "none", "0", "-1", "F"))
 		}
 	}
+	// concurrent histories: goroutines contending on a few ids; the observed history (ordered by
+	// stamps taken inside the transactions) is judged by the Lean side
+	nh := 6
+	if tier == "thorough" {
+		nh = 60
+	}
+	for i := 0; i < nh; i++ {
+		emit(wire.Line("reset"))
+		kind := []string{"badger", "badgerp", "mock"}[i%3]
+		emit(wire.Line("cfg", kind))
+		line := d.concurrentHistory(r, kind, 2+r.Intn(5), 1+r.Intn(3))
+		d.histDone[line] = true
+		emit(line)
+	}
 	emit(wire.Line("reset"))
+}
+
+type histEv struct {
+	seq    int64
+	fields []string
+}
+
+// concurrentHistory runs goroutines of single-operation transactions against a fresh store
+// and returns the `hist` line: the events ordered by the stamps taken inside the transactions.
+func (d *idxDom) concurrentHistory(r *gen.R, kind string, goroutines, nids int) string {
+	if err := d.open(kind); err != nil {
+		return wire.Line("hist", kind, "open-failed")
+	}
+	defer d.Close()
+	var ctr int64
+	var mu sync.Mutex
+	var evs []histEv
+	rec := func(seq int64, f ...string) {
+		mu.Lock()
+		evs = append(evs, histEv{seq, f})
+		mu.Unlock()
+	}
+	onChange := func(id string, before, after interface{}) {
+		rec(atomic.AddInt64(&ctr, 1), "cb", id, optVal(before)+">"+optVal(after))
+	}
+	switch st := d.st.(type) {
+	case *badgerstore.Store:
+		st.OnChange(onChange)
+	case *mockstore.Store:
+		st.OnChange(onChange)
+	}
+	ids := []string{"1", "2", "3"}[:nids]
+	var wg sync.WaitGroup
+	for g := 0; g < goroutines; g++ {
+		wg.Add(1)
+		rr := r.Fork()
+		go func() {
+			defer wg.Done()
+			for i := 0; i < 25; i++ {
+				id := rr.Pick(ids)
+				k, grp := rr.Pick([]string{"a", "ab", "b", ""}), rr.Pick([]string{"g", "h"})
+				switch rr.Intn(8) {
+				case 0, 1:
+					t := d.st.Write(id)
+					err := t.Create(idxVal{k, grp})
+					rec(atomic.AddInt64(&ctr, 1), "op", id, "C:"+k+":"+grp, resOf(err))
+					t.Close()
+				case 2, 3:
+					t := d.st.Write(id)
+					err := t.Update(idxVal{k, grp})
+					rec(atomic.AddInt64(&ctr, 1), "op", id, "U:"+k+":"+grp, resOf(err))
+					t.Close()
+				case 4:
+					t := d.st.Write(id)
+					err := t.Delete()
+					rec(atomic.AddInt64(&ctr, 1), "op", id, "D", resOf(err))
+					t.Close()
+				case 5:
+					// read-modify-write in one transaction
+					t := d.st.Write(id)
+					v, err := t.Value()
+					rec(atomic.AddInt64(&ctr, 1), "op", id, "V", valOf(v, err))
+					if err == nil {
+						nv := idxVal{v.(idxVal).K + "x", grp}
+						err = t.Update(nv)
+						rec(atomic.AddInt64(&ctr, 1), "op", id, "U:"+nv.K+":"+grp, resOf(err))
+					}
+					t.Close()
+				case 6:
+					t := d.st.Read(id)
+					v, err := t.Value()
+					rec(atomic.AddInt64(&ctr, 1), "op", id, "V", valOf(v, err))
+					t.Close()
+				default:
+					t := d.st.Read(id)
+					ex := t.Exists()
+					rec(atomic.AddInt64(&ctr, 1), "op", id, "E", wire.Bool(ex))
+					t.Close()
+				}
+			}
+		}()
+	}
+	wg.Wait()
+	sort.Slice(evs, func(i, j int) bool { return evs[i].seq < evs[j].seq })
+	args := []string{"hist", kind}
+	for _, e := range evs {
+		args = append(args, strings.Join(e.fields, "|"))
+	}
+	return wire.Line(args...)
+}
+
+func resOf(err error) string {
+	if err == nil {
+		return "ok"
+	}
+	return errClass(err)
+}
+
+func valOf(v interface{}, err error) string {
+	if err != nil {
+		return errClass(err)
+	}
+	return "val:" + optVal(v)
 }
 
 func (d *idxDom) Exec(a []string) string {
@@ -279,6 +455,34 @@ func (d *idxDom) Exec(a []string) string {
 		case "reset":
 			d.Close()
 			return "ok"
+		case "hist":
+			// a history is an observation of the implementation (made by `run`); nothing to execute
+			return "ok"
+		case "txn":
+			txn := d.st.Write(a[1])
+			defer txn.Close()
+			var outs []string
+			for _, step := range a[2:] {
+				f := strings.SplitN(step, ":", 3)
+				switch f[0] {
+				case "V":
+					v, err := txn.Value()
+					outs = append(outs, valOf(v, err))
+				case "E":
+					outs = append(outs, wire.Bool(txn.Exists()))
+				case "C":
+					outs = append(outs, resOf(txn.Create(idxVal{f[1], f[2]})))
+				case "U":
+					outs = append(outs, resOf(txn.Update(idxVal{f[1], f[2]})))
+				case "D":
+					outs = append(outs, resOf(txn.Delete()))
+				default:
+					return "bad-op"
+				}
+			}
+			return strings.Join(outs, ";") + " cbs=" + d.takeCbs()
+		case "excl":
+			return d.exclusion(a[1], a[2], a[3] == "same")
 		case "cfg":
 			if err := d.open(a[1]); err != nil {
 				return "open-failed"
